@@ -117,6 +117,11 @@ structure EndpointReq where
       `rs.NewResourceServerJWTProfile(issuer, …)` + `rs.Introspect`): audience, subject, times, header and signature are the
       library's choice; the key is one the storage holds for that client under that key id -/
   libraryAddressed : Bool := false
+  /-- (deep 4) "its subject equals its issuer (unless a custom subject check is configured)": a fact about the CONFIGURATION - the
+      verifier this provider judges assertions with carries a custom subject check (`op.SubjectCheck`), given as a predicate on the
+      claims (what the configured check admits); `none`: the default (sub = iss).  The same verifier serves the jwt-bearer grant and
+      client authentication; whatever the check admits as SUBJECT, the authenticated client identity stays the ISSUER -/
+  subjectCheck : Option (Claims → Bool) := none
 
 /-- what the endpoint was observed to do -/
 structure EndpointObs where
@@ -135,7 +140,8 @@ def signedByRegisteredKey (registry : List (String × JWK)) (id : String) (t : T
 
 /-- (soundness) an endpoint that honoured the assertion of a request addressed to `reqIssuer`: the assertion proves a client
     identity FOR THAT ISSUER (signed by a key registered for the client it names as issuer, `reqIssuer` in its audience, within
-    the time window, sub = iss), the endpoint went on as exactly that client, and a jwt-bearer grant carries only scopes that were
+    the time window, sub = iss - or, where a custom subject check is configured, a subject that check admits), the endpoint went
+    on as exactly that client (the ISSUER, whatever the subject), and a jwt-bearer grant carries only scopes that were
     requested and that the storage's policy does not refuse to that issuer; as client authentication (every endpoint of both
     routers) an assertion authenticates only a client that is registered for private_key_jwt -/
 def endpointSound (registry : List (String × JWK)) (rq : EndpointReq) (now : Int) (obs : EndpointObs) : Option String :=
@@ -143,10 +149,11 @@ def endpointSound (registry : List (String × JWK)) (rq : EndpointReq) (now : In
   match rq.assertion.middle.bind (·.claims) with
   | none => some "accepted-undecodable-assertion"
   | some c =>
-    match assertionOK rq.reqIssuer providerMaxAgeIAT providerOffset true registry rq.assertion now c with
+    match assertionOK rq.reqIssuer providerMaxAgeIAT providerOffset rq.subjectCheck.isNone registry rq.assertion now c with
     | some cl => some cl
     | none =>
-      if obs.identity.any (· != c.iss) then some "identity-is-not-the-issuer"
+      if rq.subjectCheck.any (fun admits => !admits c) then some "subject-refused-by-the-configured-check"
+      else if obs.identity.any (· != c.iss) then some "identity-is-not-the-issuer"
       else if rq.clientAuth && rq.registeredMethod != some Const.AuthMethodPrivateKeyJWT then some "client-not-registered-for-private_key_jwt"
       else if rq.bearerGrant && obs.scopes.any (fun g => g.any fun s => !rq.requestedScopes.contains s || rq.refusedScopes.contains s)
         then some "scope-not-validated-for-the-issuer"
@@ -174,7 +181,9 @@ def endpointHelper (registry : List (String × JWK)) (rq : EndpointReq) (obs : E
   match rq.assertion.middle.bind (·.claims) with
   | none => none
   | some c =>
-    if rq.helperMade && c.aud.contains rq.reqIssuer && c.sub == c.iss && signedByRegisteredKey registry c.iss rq.assertion && !obs.accepted
+    -- (deep 4) a configured subject check that refuses the helper's sub = iss takes the demand away
+    if rq.subjectCheck.any (fun admits => !admits c) then none
+    else if rq.helperMade && c.aud.contains rq.reqIssuer && c.sub == c.iss && signedByRegisteredKey registry c.iss rq.assertion && !obs.accepted
     then some "helper-assertion-rejected"
     else if rq.helperMade && rq.libraryAddressed && !obs.accepted then some "helper-assertion-rejected"
     else none
@@ -183,6 +192,7 @@ def endpointHelper (registry : List (String × JWK)) (rq : EndpointReq) (obs : E
     every instant in between: each time condition is monotone - must be honoured when the rest of the request is in order -/
 def endpointProper (registry : List (String × JWK)) (rq : EndpointReq) (now0 now1 : Int) (obs : EndpointObs) : Option String :=
   if rq.contextOK && !obs.accepted
+      && !(rq.subjectCheck.any fun admits => (rq.assertion.middle.bind (·.claims)).any fun c => !admits c)
       && (properlyMade rq.reqIssuer providerMaxAgeIAT providerOffset registry rq.assertion now0).isSome
       && (properlyMade rq.reqIssuer providerMaxAgeIAT providerOffset registry rq.assertion now1).isSome
   then some "proper-assertion-rejected" else none
